@@ -1,0 +1,104 @@
+//go:build verif
+
+package s2
+
+// This file is compiled only with the build tag "verif". It exports thin
+// read-only wrappers needed by the containment / index-query harness
+// (properties C04 and C06). It adds no behaviour.
+
+// VerifIndexCellDump is the read-only view of one index cell.
+type VerifIndexCellDump struct {
+	ID     CellID
+	Center Point
+	Shapes []VerifClippedDump
+}
+
+// VerifClippedDump is the read-only view of one clippedShape.
+type VerifClippedDump struct {
+	ShapeID        int32
+	ContainsCenter bool
+	Edges          []int
+}
+
+// VerifIndexCells builds the index if necessary and returns a copy of all
+// its cells in iterator order.
+func VerifIndexCells(s *ShapeIndex) []VerifIndexCellDump {
+	var out []VerifIndexCellDump
+	for it := s.Iterator(); !it.Done(); it.Next() {
+		d := VerifIndexCellDump{ID: it.CellID(), Center: it.Center()}
+		for _, cs := range it.IndexCell().shapes {
+			if cs == nil {
+				d.Shapes = append(d.Shapes, VerifClippedDump{ShapeID: -1})
+				continue
+			}
+			d.Shapes = append(d.Shapes, VerifClippedDump{
+				ShapeID:        cs.shapeID,
+				ContainsCenter: cs.containsCenter,
+				Edges:          append([]int(nil), cs.edges...),
+			})
+		}
+		out = append(out, d)
+	}
+	return out
+}
+
+// VerifLoopIndex returns the loop's private ShapeIndex.
+func VerifLoopIndex(l *Loop) *ShapeIndex { return l.index }
+
+// VerifPolygonIndex returns the polygon's private ShapeIndex.
+func VerifPolygonIndex(p *Polygon) *ShapeIndex { return p.index }
+
+// VerifLoopBruteForceContainsPoint forces the brute-force path of Loop.ContainsPoint.
+func VerifLoopBruteForceContainsPoint(l *Loop, p Point) bool { return l.bruteForceContainsPoint(p) }
+
+// VerifLoopIndexContainsPoint forces the index path of Loop.ContainsPoint
+// (LocatePoint + iteratorContainsPoint), whatever the number of vertices.
+func VerifLoopIndexContainsPoint(l *Loop, p Point) bool {
+	it := l.index.Iterator()
+	if !it.LocatePoint(p) {
+		return false
+	}
+	return l.iteratorContainsPoint(it, p)
+}
+
+// VerifPolygonBruteForceContainsPoint forces the brute-force branch of
+// Polygon.ContainsPoint (XOR of the loops' brute-force answers).
+func VerifPolygonBruteForceContainsPoint(p *Polygon, point Point) bool {
+	inside := false
+	for _, l := range p.loops {
+		inside = inside != l.bruteForceContainsPoint(point)
+	}
+	return inside
+}
+
+// VerifPolygonQueryContainsPoint forces the index branch of
+// Polygon.ContainsPoint (a semi-open ContainsPointQuery on the polygon's index).
+func VerifPolygonQueryContainsPoint(p *Polygon, point Point) bool {
+	return NewContainsPointQuery(p.index, VertexModelSemiOpen).Contains(point)
+}
+
+// VerifPolygonIteratorContainsPoint runs Polygon.iteratorContainsPoint at the
+// index cell containing the point (false if there is none).
+func VerifPolygonIteratorContainsPoint(p *Polygon, point Point) bool {
+	it := p.index.Iterator()
+	if !it.LocatePoint(point) {
+		return false
+	}
+	return p.iteratorContainsPoint(it, point)
+}
+
+// VerifContainsBruteForce exposes shapeutil's containsBruteForce.
+func VerifContainsBruteForce(shape Shape, p Point) bool { return containsBruteForce(shape, p) }
+
+// VerifReferencePointForShape exposes shapeutil's referencePointForShape.
+func VerifReferencePointForShape(shape Shape) ReferencePoint { return referencePointForShape(shape) }
+
+// VerifLoopBoundContains reports Loop.bound.ContainsPoint(p) (the shortcut
+// taken by ContainsPoint while the index is not fresh).
+func VerifLoopBoundContains(l *Loop, p Point) bool { return l.bound.ContainsPoint(p) }
+
+// VerifPolygonBoundContains reports Polygon.bound.ContainsPoint(p).
+func VerifPolygonBoundContains(pg *Polygon, p Point) bool { return pg.bound.ContainsPoint(p) }
+
+// VerifReferenceDir exposes Point.referenceDir.
+func VerifReferenceDir(p Point) Point { return p.referenceDir() }
